@@ -286,7 +286,7 @@ def main(prop, tier='quick', seed=0, replay=None, only=None, jobs=None):
         for f in c.functions:
             if not entered.get(f) and not entered.get(f.split('.')[-1]):
                 unreached.append(f'{c.name}: {f}')
-    if unreached:
+    if unreached and not only:   # (--only is a development filter: the witness is judged on the whole property's samples)
         harness_errors.append('reachability witness failed: ' + '; '.join(unreached[:10]))
     if harness_errors:
         for e in harness_errors[:20]:
